@@ -464,7 +464,9 @@ func (s *clientSocket) emitBuffered() {
 			sent, ok := ackIDs[*event.header.ID]
 			if ok && sent {
 				mu.Unlock()
-				return
+				// The acknowledgement is already sent by the handler. Go on with the next event:
+				// returning here would leave the rest of the buffered events and the send buffer behind.
+				continue
 			}
 			ackIDs[*event.header.ID] = true
 			mu.Unlock()
